@@ -35,6 +35,17 @@ import ast as _ast
 # bound to attributes of self are read as aliases (mpsa/normalize.unalias_self)
 out['__aliases__'] = {rel: {q: sorted({x.id for x in _ast.walk(fi.node) if isinstance(x, _ast.Name) and isinstance(x.ctx, _ast.Store)}) for q, fi in m.functions.items()} for rel, m in repo.modules.items()}
 out['__globals__'] = {rel: sorted({t.id for st in m.tree.body if isinstance(st, (_ast.Assign, _ast.AnnAssign)) for t in (st.targets if isinstance(st, _ast.Assign) else [st.target]) if isinstance(t, _ast.Name)}) for rel, m in repo.modules.items()}
+from mpsa.normalize import local_skeleton
+from mpsa.loader import FuncInfo as _FI
+# locals of every outermost function in order of first occurrence, with a digest of the function with the locals abstracted
+# (mpsa/normalize.restore_local_names)
+out['__locals__'] = {rel: {q: local_skeleton(fi.node) for q, fi in m.functions.items() if not isinstance(fi.parent, _FI)} for rel, m in repo.modules.items()}
+from mpsa.normalize import attribute_signatures
+# signature of every attribute name per module, taken from the files as they are (mpsa/normalize.attribute_renames)
+out['__attrs__'] = {rel: attribute_signatures(_ast.parse(m.source)) for rel, m in repo.modules.items()}
+from mpsa.normalize import class_signatures, identifiers
+out['__classes__'] = {rel: class_signatures(_ast.parse(m.source)) for rel, m in repo.modules.items()}
+out['__words__'] = sorted(set().union(*[identifiers(_ast.parse(m.source)) for m in repo.modules.values()]))
 out['__all__'] = {rel: sorted(q for q in m.functions if '#' not in q) for rel, m in repo.modules.items()}
 ANCHORS_FILE.write_text(json.dumps(out, indent=0, sort_keys=True))
-print(f'{ANCHORS_FILE}: {sum(len(v) for k, v in out.items() if k not in ("__all__", "__aliases__", "__globals__"))} fingerprints; {sum(len(v) for v in out["__all__"].values())} reference names')
+print(f'{ANCHORS_FILE}: {sum(len(v) for k, v in out.items() if k not in ("__all__", "__aliases__", "__globals__", "__locals__", "__attrs__", "__classes__", "__words__"))} fingerprints; {sum(len(v) for v in out["__all__"].values())} reference names')
